@@ -73,3 +73,22 @@ func VerifOps(c *Code) []string {
 	}
 	return ops
 }
+
+// VerifBareSetpath makes the constant-path assignment shortcut fail the way
+// _assign/2 does: the error of evaluating the path expression against the
+// input comes first (the shortcut never evaluates it), and only then the
+// error of setpath.
+var VerifBareSetpath bool
+
+func verifBareSetpath() bool { return VerifBareSetpath }
+
+func verifSetpathBare(v any, args []any) any {
+	w := v
+	for _, x := range args[0].([]any) {
+		w = funcIndex2(nil, w, x)
+		if err, ok := w.(error); ok {
+			return err
+		}
+	}
+	return funcSetpath(v, args[0], args[1])
+}
